@@ -648,7 +648,7 @@ HOST_METHODS = {"Mark": (["i64"], "bnone"), "Id64": (["i64"], "(becho 0)"), "IdU
                 "Slot": ([], '(bconst (vother "ptr"))'),
                 # ShrinkSL truncates h.SL in the real host (no such behaviour in the Coq model): called only by driver-stated scenarios
                 "ShrinkSL": ([], "bnone"),
-                "BumpM": ([], "bnone"), "BumpI": ([], "bnone"),
+                "BumpM": ([], "bnone"), "BumpI": ([], "bnone"), "HoldM": (["s"], "bnone"),
                 # PushSL appends to h.SL in the real host; the Coq model has no growing behaviour: it is listed so that hosts look
                 # alike, and it is called only by scenarios whose expectation is stated in the driver (C09 termination scenarios)
                 "PushSL": (["i32"], "bnone")}
